@@ -33,6 +33,16 @@ func (w *World) payloadSeeds() map[string]string {
 			out[fn+"/"+en] = Memo(f, fe)
 		}
 	}
+	// the seeds are also the corpus from which the mutator takes KNOWN members to add to same-shaped objects
+	var names, docs []string
+	for n := range out {
+		names = append(names, n)
+	}
+	sortStringsInPlace(names)
+	for _, n := range names {
+		docs = append(docs, out[n])
+	}
+	setMutationCorpus(docs)
 	return out
 }
 
